@@ -24,7 +24,7 @@ ASSUMPTIONS = ["the uncached evaluator / refsem give the meaning of trees (C02)"
 RULE = "one item per (skeleton, map shape); non-trivial = map has a key occurring in the tree or the identity clause was evaluated"
 
 MAPS = ["const", "const_varkey", "const_kwargs", "othervar", "incr", "swap", "chain", "subscript_key", "subscript_and_index",
-        "lookup_key", "unused", "all_leaves", "index_then_subscript_key", "nonvar_names", "mixed_kwargs"]
+        "lookup_key", "unused", "all_leaves", "index_then_subscript_key", "nonvar_names", "mixed_kwargs", "subscript_key_zero", "lookup_key_zero", "zero_values"]
 D3 = ["sum2", "prod2", "quot", "pow", "if", "lor2", "cmp_lt", "call1", "sub1", "cse"]
 
 
@@ -40,9 +40,11 @@ def items(tier):
         seen.add(key)
         kinds = skel.kinds_in(d)
         for m in MAPS:
-            if m in ("subscript_key", "subscript_and_index", "index_then_subscript_key") and "sub1" not in kinds:
+            if m in ("subscript_key", "subscript_key_zero", "subscript_and_index", "index_then_subscript_key") and "sub1" not in kinds:
                 continue
-            if m == "lookup_key" and "lookup" not in kinds:
+            if m in ("lookup_key", "lookup_key_zero") and "lookup" not in kinds:
+                continue
+            if m == "zero_values" and len(kinds) > 1:
                 continue
             if m == "nonvar_names" and not ({"lookup", "callkw", "callkw0", "cse_pfx"} & set(kinds)):
                 continue
@@ -55,6 +57,11 @@ def items(tier):
               ("sum2", ("lookup", v("o1", "rec")), v("x2")),
               ("sub1", v("a1", "arr"), ("sub1", v("a1", "arr"), v("x2"))),
               ("sum2", v("x1"), v("x1")), ("prod2", ("sum2", v("x1"), v("x2")), ("sum2", v("x1"), v("x2"))),
+              # constants whose hashes collide in CPython (hash(-1) == hash(-2)) in same-shaped subtrees
+              ("prod2", ("sum2", v("x1"), ("c", -1)), ("sum2", v("x1"), ("c", -2))),
+              ("sum2", ("pow", v("x1"), ("c", -1)), ("prod2", ("c", 3), ("pow", v("x1"), ("c", -2)))),
+              ("sum2", ("prod2", ("sum2", v("x1"), ("c", -1)), ("sum2", v("x1"), ("c", -2))), v("x2")),
+              ("call2", v("f1", "fn"), ("sum2", v("x2"), ("c", -1)), ("sum2", v("x2"), ("c", -2))),
               # nodes of a user subclass of Variable (evaluated by name, replaced through name keys like any variable)
               ("sum2", v("x1", "tnum"), ("prod2", ("c", 2), v("x2"))), ("call1", v("f1", "fn"), v("x2", "tnum")),
               ("sum3", v("x1", "tnum"), v("x1"), v("x2", "tnum")), ("sub1", v("a1", "arr"), ("sum2", v("x2", "tnum"), v("x3")))]:
@@ -142,13 +149,15 @@ def build_map(desc, expr, shape):
     if shape == "nonvar_names":
         # strings that occur in the tree but do not name a variable: attribute, keyword and prefix names
         return {"fld": 77, "k": 78, "j": 79, "pfx": 80}, {}, {}, []
-    if shape in ("subscript_key", "subscript_and_index", "index_then_subscript_key"):
+    if shape in ("subscript_key", "subscript_key_zero", "subscript_and_index", "index_then_subscript_key"):
         subs = find_nodes(expr, p.Subscript)
         if not subs:
             return None
         node = subs[0]
         if shape == "subscript_key":
             return {node: 9}, {}, {}, [(node, 9)]
+        if shape == "subscript_key_zero":      # replacement values that are "false": 0, and a product with a zero factor
+            return {node: 0}, {}, {}, [(node, 0)]
         idx_vars = [x for x in find_nodes(node.index, p.Variable)]
         if not idx_vars:
             return None
@@ -162,11 +171,20 @@ def build_map(desc, expr, shape):
             return None
         m = {iv.name: V("fresh_j"), replaced: 7}
         return m, {}, {iv.name: V("fresh_j")}, [(replaced, 7)]
-    if shape == "lookup_key":
+    if shape in ("lookup_key", "lookup_key_zero"):
         ls = find_nodes(expr, p.Lookup)
         if not ls:
             return None
-        return {ls[0]: 3}, {}, {}, [(ls[0], 3)]
+        val = 3 if shape == "lookup_key" else 0.0
+        return {ls[0]: val}, {}, {}, [(ls[0], val)]
+    if shape == "zero_values":
+        # variables replaced by zero-like values (0, False, 0*x)
+        if len(nums) < 1:
+            return None
+        m = {nums[0]: 0}
+        if len(nums) > 1:
+            m[nums[1]] = p.Product((0, V(nums[0])))
+        return dict(m), {}, dict(m), []
     raise ValueError(shape)
 
 
@@ -293,7 +311,7 @@ def check_item(item, tier):
 
     ex = Explorer(pre=pre, max_paths=BOUNDS[tier]["max_paths"], timeout_ms=BOUNDS[tier]["solver_timeout_ms"])
     q = Query(timeout_ms=BOUNDS[tier]["solver_timeout_ms"])
-    cmp_ = H.Cmp(q, fam)
+    cmp_ = H.Cmp(q, fam, lenient=True)      # where evaluation in the extended environment is undefined nothing is required
     try:
         for path in ex.run(harness):
             if path.exc is not None:
@@ -317,7 +335,7 @@ def check_item(item, tier):
                 tg = skel.tags(desc)
                 cenv = H.concretise_env(env, model, exact=(fam != "bv" and ("div" in tg or "pow" in tg)))
                 r = r_plain if which == "plain" else r_cached
-                differs, txt = H.replay_differs(lambda: EvaluationMapper(cenv)(r), lambda: oracle(cenv))
+                differs, txt = H.replay_differs(lambda: EvaluationMapper(cenv)(r), lambda: oracle(cenv), lenient=True)
                 if not differs:
                     raise HarnessError(f"counterexample did not reproduce: {text} env {H.env_text(cenv)}: {why} / {txt}")
                 viol(f"value-{which}", f"result {r!r} with {H.env_text(cenv)}: {txt}",
